@@ -125,6 +125,8 @@ pub struct Profile {
     /// permille of calls that handle SHORT-NAME elements like ordinary elements (create / copy / move them directly) or
     /// copy and move elements that were removed before - legal calls that build models the loader would reject
     pub abuse_permille: u64,
+    /// permille of file-system calls (load_file, write) that meet an injected disk fault
+    pub io_fault_permille: u64,
 }
 
 pub fn w(k: K, n: u32) -> (K, u32) {
@@ -183,7 +185,8 @@ pub fn base_weights() -> Vec<(K, u32)> {
 pub fn all_weights() -> Vec<(K, u32)> {
     let mut v = base_weights();
     for k in crate::ops::ALL_KINDS {
-        if !v.iter().any(|(x, _)| x == k) {
+        // the file-system kinds are added by the profiles that want them (after the swarm selection)
+        if !v.iter().any(|(x, _)| x == k) && !matches!(k, K::MLoadFile | K::MWrite) {
             v.push((*k, 3));
         }
     }
@@ -565,6 +568,43 @@ impl<'a> Gen<'a> {
                 }
                 let name = self.rng.pick(FILE_NAMES).to_string();
                 Some(Op::new(K::MLoadBuffer, *mh).s(&name).flag(!lenient).bytes(&bytes))
+            }
+            K::MLoadFile => {
+                let (mh, ms) = self.pick_model()?;
+                if ms.files.len() >= 4 || !grow_ok {
+                    return None;
+                }
+                let strict = !self.permille(300);
+                let fault = if self.permille(self.prof.io_fault_permille) { 2 } else { 0 };
+                if self.permille(350) {
+                    // whatever the disk holds: something written earlier (by this or another model), torn, or nothing
+                    let on_disk: Vec<String> = crate::simfs::listing().into_iter().map(|(p, _)| p.to_string_lossy().to_string()).collect();
+                    let name = if !on_disk.is_empty() && !self.permille(150) { self.rng.pick(&on_disk) } else { self.rng.pick(FILE_NAMES).to_string() };
+                    return Some(Op::new(K::MLoadFile, *mh).s(&name).flag(strict).n(1 | fault));
+                }
+                let ver = if !ms.files.is_empty() && !self.permille(300) {
+                    ms.files[0].ver
+                } else {
+                    AutosarVersion::from_str(self.rng.pick(VERSIONS)).unwrap()
+                };
+                let mut bytes = self.make_document(ver, Some(ms)).into_bytes();
+                if self.permille(self.prof.load_fault_permille) && !bytes.is_empty() {
+                    // a short file: the tail never reached the disk
+                    let k = self.rng.below(bytes.len());
+                    bytes.truncate(k);
+                }
+                let name = self.rng.pick(FILE_NAMES).to_string();
+                Some(Op::new(K::MLoadFile, *mh).s(&name).flag(strict).n(fault).bytes(&bytes))
+            }
+            K::MWrite => {
+                let (mh, ms) = self.pick_model()?;
+                let mut n = 0;
+                if self.permille(self.prof.io_fault_permille) {
+                    let k = 1 + self.rng.below(ms.files.len().max(1));
+                    let torn = if self.permille(600) { 1 + self.rng.below(99) } else { 0 };
+                    n = k + 100 * torn;
+                }
+                Some(Op::new(K::MWrite, *mh).n(n))
             }
             K::MRemoveFile => {
                 let (mh, _) = self.pick_model()?;
